@@ -71,6 +71,14 @@ def gen_deflate(tier, rng):
             add(api="deflate", inp=rnd[:n], level=level, wrap=0, lbuf=0, mem=1, calls=[[n, n + 200, [0, 1, 2][n % 3], 1]], tail_ao=1 << 16, cap=40, meta={"family": "every-length-minimal-level-buffer", "nodecode": n % 64 != 0})
             if n % 24 == 0:
                 add(api="deflate_stateless", inp=rnd[:n], level=level, wrap=0, lbuf=0, mem=1, calls=[[n, n + 200, 0, 1]], meta={"family": "every-length-minimal-level-buffer"})
+    # incompressible input given completely with end_of_stream and only 1-12 bytes of output room: the stored block's header goes through the
+    # staging buffer, and the input chunk is unmapped as soon as it is consumed - the block body must come from the library's own copy
+    for n in (300, 2000, 9000):
+        rn = igz.corpus(rng, "random", n)
+        for level in (1, 2, 3, 0):
+            for K in range(1, 13):
+                if tier == "quick" and (K + level + n) % 2 and K > 5: continue
+                add(api="deflate", inp=rn, level=level, wrap=[0, 1, 3][K % 3], lbuf=[3, 0][K % 2], mem=1, calls=[[n, K, 0, 1]], tail_ao=1 << 16, cap=60, meta={"family": "stored-block-behind-tiny-first-output"})
     return scns
 
 def queued_lookahead_family(tier, rng, wd, first):
